@@ -31,6 +31,7 @@ const preludeCore = `
 (declare-fun itag (Int) Int)
 (declare-fun ifaceobj (Int) Int)
 (declare-fun umod (Int Int) Int)
+(declare-fun udiv (Int Int) Int)
 (declare-fun irow (Int Int Int) Int)
 (declare-fun irow_tag (Int) Int)
 (declare-fun irow_ref (Int) Int)
@@ -462,6 +463,9 @@ func Solve(o *Obligation, cfg SolverCfg) (SolveResult, string) {
 	}
 	st, out, dt := runSolver(context.Background(), "z3-new", file, quickT, cfg.Seed)
 	res.Tried = append(res.Tried, fmt.Sprintf("z3-new:%s:%.2fs", st, dt))
+	if st == "sat" {
+		st, out, file = confirmSat(o, cfg, n, st, out, file, &res)
+	}
 	if st == "unsat" || st == "sat" {
 		res.Status, res.Solver, res.Seconds, res.Output = st, "z3-new", dt, out
 		return res, file
@@ -515,6 +519,28 @@ func stripSpecPatterns(smt string) string {
 		}
 		smt = smt[:start] + smt[bodyStart:bodyEnd] + smt[end+1:]
 	}
+}
+
+// confirmSat re-runs a satisfiable sliced query without slicing. Returns the status to
+// report: "unsat" (the model relied on a dropped assumption; the goal is proved),
+// "sat" (confirmed), or "unknown".
+func confirmSat(o *Obligation, cfg SolverCfg, n int, st, out, file string, res *SolveResult) (string, string, string) {
+	if o.Expect != "unsat" || os.Getenv("GOVC_NOSLICE") != "" {
+		return st, out, file
+	}
+	full := filepath.Join(cfg.WorkDir, fmt.Sprintf("%04d_%s.full.smt2", n, safeFileName(o.Name)))
+	if err := os.WriteFile(full, []byte(buildSMTLevel(o, true, 2)), 0o644); err != nil {
+		return st, out, file
+	}
+	t := 20 * time.Second
+	st2, out2, dt2 := runSolver(context.Background(), "z3-new", full, t, cfg.Seed)
+	res.Tried = append(res.Tried, fmt.Sprintf("z3-new/unsliced:%s:%.2fs", st2, dt2))
+	switch st2 {
+	case "sat", "unsat":
+		return st2, out2, full
+	}
+	// the complete query is too hard to decide quickly: keep the sliced model but say so
+	return "sat", out + "\n; note: model of the sliced query; the unsliced query was " + st2 + "\n", file
 }
 
 // Portfolio runs many solver configurations on the strict and the inclusive slice of
@@ -579,7 +605,18 @@ func Portfolio(o *Obligation, cfg SolverCfg) (SolveResult, string) {
 			tag += "/strict"
 		}
 		res.Tried = append(res.Tried, fmt.Sprintf("%s:%s:%.1fs", tag, r.st, r.dt))
-		if r.st == "unsat" || (r.st == "sat" && !r.j.strict) {
+		if r.st == "sat" && !r.j.strict {
+			// a model of a sliced query may violate a dropped assumption: confirm on
+			// the complete query before reporting it
+			st2, out2, f2 := confirmSat(o, cfg, n, r.st, r.out, r.j.file, &res)
+			if st2 == "unsat" || st2 == "sat" {
+				res.Status, res.Solver, res.Seconds, res.Output = st2, tag, r.dt, out2
+				cancel()
+				return res, f2
+			}
+			continue
+		}
+		if r.st == "unsat" {
 			res.Status, res.Solver, res.Seconds, res.Output = r.st, tag, r.dt, r.out
 			cancel()
 			return res, r.j.file
